@@ -444,10 +444,15 @@ func cmdRun(args []string) int {
 					okN++
 				}
 			}
-			if okN != 5 {
-				fmt.Printf("ENGINE-ERROR: violation %s reproduced only %d/5 times on replay of %s; not reported as a violation\n", v.Class, okN, path)
+			if okN == 0 {
+				fmt.Printf("ENGINE-ERROR: violation %s was not reproduced in 5 replays of %s; not reported as a violation\n", v.Class, path)
 				exit = 2
 				continue
+			}
+			if okN != 5 {
+				// the native engine does not own Go's select choice: a violation that depends
+				// on it reproduces only some of the time; it was observed at least twice
+				fmt.Printf("note: %s depends on nondeterminism the native engine does not own (reproduced %d/5 on replay)\n", v.Class, okN)
 			}
 		}
 		nViol++
